@@ -113,6 +113,7 @@ pub fn run_case(line: &str) -> String {
         }
         let mut ow = vec![];
         {
+            // records() and into_records() of both readers, driven three steps past the end
             let file = build_file(n, false);
             let mut r = fasta::Reader::new(&file[..]);
             let mut it = r.records();
@@ -121,7 +122,21 @@ pub fn run_case(line: &str) -> String {
                 let x = it.next();
                 ow.push(format!("{}{}", if x.is_some() { "S" } else { "N" }, if h.0 == 0 { "" } else { "!" }));
             }
+            let r = fasta::Reader::new(&file[..]);
+            let mut it = r.into_records();
+            for _ in 0..n + 3 {
+                let h = it.size_hint();
+                let x = it.next();
+                ow.push(format!("{}{}", if x.is_some() { "S" } else { "N" }, if h.0 == 0 { "" } else { "!" }));
+            }
             let file = build_file(n, true);
+            let mut r = fastq::Reader::new(&file[..]);
+            let mut it = r.records();
+            for _ in 0..n + 3 {
+                let h = it.size_hint();
+                let x = it.next();
+                ow.push(format!("{}{}", if x.is_some() { "S" } else { "N" }, if h.0 == 0 { "" } else { "!" }));
+            }
             let r = fastq::Reader::new(&file[..]);
             let mut it = r.into_records();
             for _ in 0..n + 3 {
